@@ -39,6 +39,7 @@ type Engine struct {
 
 	loopInfo map[*ssa.Function]*loopInfo
 	fnIDs    map[*ssa.Function]int
+	axiomsLoaded bool
 }
 
 func relName(fn *ssa.Function) string {
@@ -168,6 +169,9 @@ func LoadEngine(repo string, patterns []string, trustedDir string) (*Engine, err
 		if err := e.cs.LoadSpecDir(trustedDir); err != nil {
 			return nil, err
 		}
+	}
+	if err := e.cs.ResolveLikes(); err != nil {
+		return nil, err
 	}
 	return e, nil
 }
